@@ -341,6 +341,8 @@ func (pe *PolicyEngine) insertNamespace(ns *corev1.Namespace) error {
 		return err
 	}
 	pe.namespacesMap[nsObj.Name] = nsObj
+	// clear the cache on namespaces changes (namespace labels determine which rules select a peer)
+	pe.cache.clear()
 	return nil
 }
 
@@ -499,6 +501,8 @@ func (pe *PolicyEngine) insertAdminNetworkPolicy(anp *apisv1a.AdminNetworkPolicy
 	sort.SliceStable(pe.sortedAdminNetpols, func(i, j int) bool {
 		return pe.sortedAdminNetpols[i].Spec.Priority < pe.sortedAdminNetpols[j].Spec.Priority
 	})
+	// clear the cache on admin netpols changes
+	pe.cache.clear()
 	return nil
 }
 
@@ -516,11 +520,15 @@ func (pe *PolicyEngine) insertBaselineAdminNetworkPolicy(banp *apisv1a.BaselineA
 		return errors.New(netpolerrors.BANPNameAssertion)
 	}
 	pe.baselineAdminNetpol = (*k8s.BaselineAdminNetworkPolicy)(banp)
+	// clear the cache on baseline admin netpol changes
+	pe.cache.clear()
 	return nil
 }
 
 func (pe *PolicyEngine) deleteNamespace(ns *corev1.Namespace) error {
 	delete(pe.namespacesMap, ns.Name)
+	// clear the cache on namespaces changes
+	pe.cache.clear()
 	return nil
 }
 
@@ -590,6 +598,8 @@ func (pe *PolicyEngine) deleteAdminNetworkPolicy(anp *apisv1a.AdminNetworkPolicy
 			break
 		}
 	}
+	// clear the cache on admin netpols changes
+	pe.cache.clear()
 	return nil
 }
 
@@ -598,6 +608,8 @@ func (pe *PolicyEngine) deleteBaselineAdminNetworkPolicy(banp *apisv1a.BaselineA
 		// @TBD : should keep this if? no other banps are in the resources (illegal)
 		pe.baselineAdminNetpol = nil
 	}
+	// clear the cache on baseline admin netpol changes
+	pe.cache.clear()
 	return nil
 }
 
